@@ -6,6 +6,7 @@ From Coq Require Import ZArith.
 From Synnax Require Import Common.Commute Cesium.Serial Cesium.SerialProofs.
 From Synnax Require Cesium.Domain Cesium.DomainProofs Cesium.DomainCommute.
 From Synnax Require Cesium.PersistOrder Cesium.PersistOrderProofs Generated.Consts_C09.
+From Synnax Require Cesium.DomainInv Cesium.DeleteSerial.
 Local Open Scope Z_scope.
 
 (* Two operations that report success and are independent — they touch different channels,
@@ -91,6 +92,34 @@ Theorem C09_persist_order_late_refuted :
 Proof. exact PersistOrderProofs.persist_order_late_refuted. Qed.
 Print Assumptions C09_persist_order_late_refuted.
 
+(* ---- DB.Delete's optimistic protocol against concurrent commits (cesium/internal/domain/delete.go).
+   Delete looks up its start domain under a read lock, releases it, resolves the start offset, looks up its end
+   domain under a second read lock, releases it, resolves the end offset, then takes the write lock, RE-RESOLVES
+   both positions and splices the index.  For EVERY list X1 of domains committed by other writers in the first
+   window and EVERY list X2 committed in the second window (any number, anywhere they fit), whenever the delete
+   reports success the resulting index is the one of a SERIAL execution: the commits that landed between the
+   captured start and end domain first, then the delete, then the remaining commits — and every step of that serial
+   execution succeeds.  (Pointer level; [p_start s <= p_start e]: the captured start domain is not after the captured
+   end domain, i.e. the range is not contained in a gap, where the delete removes nothing.) *)
+Theorem C09_delete_serialisable_against_commits :
+  forall fs ps0 X1 X2 ps1 ps2 a b sd s so a' ed e eo b' final,
+  DomainProofs.idx_ok ps0 -> Telem.ts_in_range a -> Telem.ts_in_range b ->
+  Forall DomainProofs.ptr_wf (X1 ++ X2) ->
+  Domain.delete_start Domain.lin_resolver ps0 a = inl (Some (sd, s, so, a')) ->
+  DeleteSerial.inserts ps0 X1 = inl ps1 ->
+  Domain.delete_end Domain.lin_resolver ps1 b = inl (Some (ed, e, eo, b')) ->
+  DeleteSerial.inserts ps1 X2 = inl ps2 ->
+  Forall (DomainInv.ptr_in_files fs) ps2 -> Forall DomainInv.file_small fs ->
+  Domain.p_start s <= Domain.p_start e ->
+  Domain.delete_apply ps2 (Domain.repechage_start ps2 sd s) s so a' (Domain.repechage_end ps2 ed e) e eo b'
+    = (final, Domain.ROk) ->
+  exists psA psD,
+    DeleteSerial.inserts ps0 (List.filter (fun x => negb (DeleteSerial.outb s e x)) (X1 ++ X2)) = inl psA /\
+    Domain.delete Domain.lin_resolver Domain.lin_resolver psA a b = (psD, Domain.ROk) /\
+    DeleteSerial.inserts psD (List.filter (DeleteSerial.outb s e) (X1 ++ X2)) = inl final.
+Proof. exact DeleteSerial.delete_with_commits_serial. Qed.
+Print Assumptions C09_delete_serialisable_against_commits.
+
 (* Non-vacuity: two threads (a writer producing new domains on group 1; a thread deleting an
    older range of group 1 and creating/dropping a private channel) are cross-independent,
    have a non-trivial interleaving, and the run changes the store. *)
@@ -126,3 +155,22 @@ Example C09_persist_nonvacuous :
   | None => False
   end.
 Proof. vm_compute. auto. Qed.
+
+(* Non-vacuity for the delete/commit theorem: delete [15,55) over three domains; one writer commits [42,45) after the
+   start look-up (it lands between the captured domains and is removed, as if it had committed before the delete),
+   another commits [1,5) after the end look-up (it shifts every position and survives). *)
+Definition dP (a b : Z) (off sz : N) := Domain.mkPtr (Telem.mkTR a b) 1 off sz.
+Example C09_delete_commits_nonvacuous :
+  let ps0 := [dP 10 20 0 10; dP 30 40 10 10; dP 50 60 20 10] in
+  let X1 := [dP 42 45 30 3] in let X2 := [dP 1 5 33 4] in
+  Domain.delete_start Domain.lin_resolver ps0 15 = inl (Some (0, dP 10 20 0 10, 5, 15)) /\
+  exists ps1 ps2, DeleteSerial.inserts ps0 X1 = inl ps1 /\ DeleteSerial.inserts ps1 X2 = inl ps2 /\
+    Domain.delete_end Domain.lin_resolver ps1 55 = inl (Some (3, dP 50 60 20 10, 5, 55)) /\
+    Domain.delete_apply ps2 (Domain.repechage_start ps2 0 (dP 10 20 0 10)) (dP 10 20 0 10) 5 15
+                            (Domain.repechage_end ps2 3 (dP 50 60 20 10)) (dP 50 60 20 10) 5 55
+      = ([dP 1 5 33 4; dP 10 15 0 5; dP 55 60 25 5], Domain.ROk) /\
+    List.filter (DeleteSerial.outb (dP 10 20 0 10) (dP 50 60 20 10)) (X1 ++ X2) = [dP 1 5 33 4].
+Proof.
+  cbv zeta. split; [vm_compute; reflexivity|]. eexists. eexists.
+  split; [vm_compute; reflexivity|]. split; [vm_compute; reflexivity|]. repeat split; vm_compute; reflexivity.
+Qed.
